@@ -64,6 +64,26 @@ def run_dtier(pid, cfg, tier, seed, out, ev):
                                          slow=getattr(cfg, "SLOW", ()), slow_ms=slow_ms)
     for m in cfg.CONTRACT_MODULES:
         importlib.import_module(m)
+    # closure over callees: a contract used at a call site is part of the proof, so it is verified in the same run
+    pulled = []
+    for _round in range(6):
+        used = set()
+        for r in reports:
+            for a in r["assumptions"]:
+                if a.startswith("uses contract of "):
+                    used.add(a[len("uses contract of "):].strip())
+        have = {r["qualname"] for r in reports}
+        new = sorted(q for q in used - have if _verifiable(REGISTRY.get(q)))
+        if not new:
+            break
+        pulled.extend(new)
+        functions = functions + new
+        r2, c2, reach2 = driver.run(REPO_DIR, cfg.CONTRACT_MODULES, new, [], timeout_ms=timeout,
+                                    slow=getattr(cfg, "SLOW", ()), slow_ms=slow_ms)
+        reports += r2
+        clauses.update(c2)
+        reach.update(reach2)
+    ev["_pulled"] = pulled
     baseline = load_baseline(pid) or {}
     base_clauses = set(baseline.get("discharged", []))
     fn_status = {}
@@ -188,6 +208,7 @@ def run_dtier(pid, cfg, tier, seed, out, ev):
                                       "vcgen_s": r["gen_s"]} for r in reports],
         "obligations": n_obl, "discharged": n_dis, "per_obligation": per, "solver_s": round(solver_s, 2),
         "backends": backends, "known_findings": known_list, "baseline_missing": missing,
+        "callees_verified_with_their_callers": ev.pop("_pulled", []),
         "wall_s": round(time.time() - t0, 2),
         "sources": {k: v for r in reports for k, v in r.get("sources", {}).items()},
     }
@@ -197,12 +218,31 @@ def run_dtier(pid, cfg, tier, seed, out, ev):
     for a in sorted(assumptions):
         if a.startswith("assumed contract of ") and a[len("assumed contract of "):].strip() in proved_here:
             continue
+        if a.startswith("uses contract of "):
+            q = a[len("uses contract of "):].strip()
+            if q in proved_here:
+                continue
+            c_ = REGISTRY.get(q)
+            if ("assumed contract of %s" % q) in assumptions:
+                continue            # already listed (a trusted contract)
+            a = ("assumed call-site model of %s (not verified here)" if (c_ is not None and c_.model_ is not None)
+                 else "assumed contract of %s (not verified in this run)") % q
         kept.append(a)
     ev["assumptions"].extend(kept)
     if dropped:
         ev["assumptions"].append("extraction drops (no-ops): " + "; ".join(sorted(dropped)))
     if n_obl + len(known_list) == 0 and all(r["status"] == "ok" for r in reports):
         out.errors.append("vacuity guard: zero obligations generated")
+
+
+def _verifiable(c):
+    """a contract that generates obligations of its own when its function is verified"""
+    if c is None or c.trusted_:
+        return False
+    has_spec = bool(c.ensures_ or c.raises_ or c.path_hooks_ or c.post_hooks_ or c.yields_seq_ or c.yields_each_ or c.loops
+                    or c.event_clauses_)
+    has_inputs = bool(c.setup_ is not None or c.arg_types or c.self_fields or c.cases_)
+    return has_spec and has_inputs
 
 
 def find_function(clause, functions):
